@@ -39,7 +39,7 @@ def make_items(tier, seed):
         wide = corpus.u_unit(widths=(5, 6, 8), consts=(0, 1, 3, 6, 10, 12, 14, 15, 200, 255)) + corpus.u_unit_pairs([(2, 8), (8, 2), (4, 8), (8, 4), (8, 12), (12, 8), (12, 16), (16, 12), (16, 16), (3, 6), (6, 3)])
         # symbolic-by-symbolic products and powers above 4 bits make sympy (not the solver) run for
         # minutes per program: only products by a constant are kept for the wide operand family
-        wide = [p for p in wide if "**" not in p[1] and not ("a * b" in p[1]) and not ("*" in p[1] and ("200" in p[1] or "255" in p[1]))]
+        wide = [p for p in wide if "**" not in p[1] and not ("a * b" in p[1]) and not ("*" in p[1] and ("200" in p[1] or "255" in p[1] or "Qint[8]" in p[1]))]
         rest_progs += wide + corpus.u_bool_random(600) + corpus.u_bool_or_of_ands()
     seen = set()
 
